@@ -198,8 +198,10 @@ def out_name(outk):
     return [None, "out.txt", "old.txt", "in.py", "./in.py"][outk]
 
 
-def run_main(c_args, use_out, dep_unparser, si):
-    """execute the real main script with the stubs; returns (error type name or None, fs, printed)"""
+def run_main(c_args, use_out, dep_unparser, si, argv=None):
+    """execute the real main script with the stubs; returns (error type name or None, fs, printed).
+    With `argv` the REAL argparse parser runs on that command line (order and spelling of the
+    options matter); otherwise parse_args is stubbed with a prepared namespace."""
     ol, cfgmod = c10k.fresh_import()
     real_convert = ol.convert_code_string
 
@@ -222,7 +224,11 @@ def run_main(c_args, use_out, dep_unparser, si):
     ns = argparse.Namespace(C=(list(c_args) if c_args else None), input_filename="in.py", output=out_name(int(use_out)), unparser=dep_unparser)
     g = {"__name__": "__main__", "open": fs.open, "print": lambda *a, **k: printed.append(a)}
     old = argparse.ArgumentParser.parse_args
-    argparse.ArgumentParser.parse_args = lambda self, *a, **k: ns
+    old_argv = sys.argv
+    if argv is None:
+        argparse.ArgumentParser.parse_args = lambda self, *a, **k: ns
+    else:
+        sys.argv = ["oneliner"] + list(argv)
     old_tok = tokenize.open
     tokenize.open = fs.tokenize_open
     err = None
@@ -234,8 +240,11 @@ def run_main(c_args, use_out, dep_unparser, si):
             exec(MAIN_CODE, g, g)
     except Exception as e:
         err = type(e).__name__
+    except SystemExit as e:
+        err = "SystemExit" if e.code not in (0, None) else None
     finally:
         argparse.ArgumentParser.parse_args = old
+        sys.argv = old_argv
         tokenize.open = old_tok
         ol.convert_code_string = real_convert
     return err, fs, printed
@@ -277,13 +286,13 @@ def spec(c_args, dep_unparser):
     return t
 
 
-def check(c_args, use_out, dep_unparser, si):
+def check(c_args, use_out, dep_unparser, si, argv=None):
     """use_out: bool (stdout / new file) or an index into OUT_KINDS"""
     if isinstance(use_out, int) and not isinstance(use_out, bool):
         outk = use_out
     else:
         outk = 1 if rt.pick_bool(use_out) else 0
-    err, fs, printed = run_main(c_args, outk, dep_unparser, si)
+    err, fs, printed = run_main(c_args, outk, dep_unparser, si, argv)
     t = spec(c_args, dep_unparser)
     with rt.NoTracing():
         before = {"in.py": file_bytes(si), "old.txt": OLD_CONTENT}
@@ -362,6 +371,56 @@ def k_ws(pi, wi, pos, use_out):
     use_out = rt.pick_bool(use_out)
     with rt.NoTracing():
         return check([ws_arg(pi, wi, pos)], use_out, None, 0)
+
+
+# order and spelling on the real command line: the deprecated --unparser is applied AFTER every -C,
+# wherever it is written; -Cname=value attached or separate; -o before or after FILE
+ORDER_FORMS = 8
+
+
+def order_argv(vi, di, form, use_out):
+    v = LEGAL["unparser"][vi]
+    d = LEGAL["unparser"][di]
+    c_sep = ["-C", "unparser=" + v]
+    c_att = ["-Cunparser=" + v]
+    dep_sep = ["--unparser", d]
+    dep_eq = ["--unparser=" + d]
+    out = ["-o", "out.txt"] if use_out else []
+    forms = [
+        ["in.py"] + c_sep + dep_sep + out,
+        ["in.py"] + dep_sep + c_sep + out,
+        dep_eq + c_att + ["in.py"] + out,
+        c_att + out + dep_eq + ["in.py"],
+        out + dep_sep + ["in.py"] + c_sep + ["-C", "if_style=short_circuit"],
+        ["-C", "if_style=short_circuit"] + dep_eq + ["in.py"] + c_sep + out,
+        dep_sep + ["in.py"] + out,
+        out + ["in.py"] + c_att,
+    ]
+    argv = forms[form]
+    c_args = [a[2:] if a.startswith("-C") and len(a) > 2 else a for a in argv]
+    cs = []
+    k = 0
+    while k < len(argv):
+        if argv[k] == "-C":
+            cs.append(argv[k + 1])
+            k += 2
+        elif argv[k].startswith("-C"):
+            cs.append(argv[k][2:])
+            k += 1
+        else:
+            k += 1
+    dep = d if any(a.startswith("--unparser") for a in argv) else None
+    return argv, cs, dep
+
+
+def k_order(vi, di, form, use_out):
+    vi = rt.pick(vi, 2)
+    di = rt.pick(di, 2)
+    form = rt.pick(form, ORDER_FORMS)
+    use_out = rt.pick_bool(use_out)
+    with rt.NoTracing():
+        argv, cs, dep = order_argv(vi, di, form, use_out)
+        return check(cs, bool(use_out), dep, 1, argv)
 
 
 def k_two(n1, v1, n2, v2, use_out):
